@@ -486,6 +486,7 @@ func Run(o *corr.Out) {
 	if want("fault") {
 		famFault(o, 6*mul)
 		famFaultStalledWrite(o)
+		famFaultAtOffer(o)
 		if !want("cancel") {
 			famSelectRace(o)
 		}
@@ -1199,6 +1200,51 @@ func famCancelAtOffer(o *corr.Out) {
 				o.OracleOK("C04:cancel-unblocks")
 			}
 			probe(o, sc, "C04:conn-usable-or-closed", false)
+			finish(o, sc)
+		}
+	}
+}
+
+// famFaultAtOffer: the client's transport breaks at the instant a new stream is about to be handed to
+// manageStreams, and the manager has terminated before the hand-off goes on (so the hand-off is
+// retracted, or taken by a manageStreams that is about to leave).  The call must return, a later call
+// must fail promptly, nothing may stay pending or running (C05: a failure at any point is contained).
+func famFaultAtOffer(o *corr.Out) {
+	for _, soft := range []bool{false, true} {
+		reps := 8
+		if o.Thorough {
+			reps = 40
+		}
+		for rep := 0; rep < reps; rep++ {
+			end := []string{"A", "B"}[rep/2%2] // the client's end at its own hand-off, the server's end at the server's
+			sc := &scenario{cfg: Config{Soft: soft}, class: "fault-at-offer-" + end}
+			if rep%2 == 1 {
+				sc.do("inv!u1!1!r1.s1:1.x!1!7")
+			}
+			sc.do("ofail!" + end)
+			if end == "B" {
+				// only the invoke is on the wire (a streaming call): the server's reader is back in the
+				// transport, not parked on an undelivered message, when the read fails
+				sc.do("new!u2!2!rA.x!1")
+				sc.do("fls!f2!2")
+			} else {
+				sc.do("inv!u2!2!r1.s1:1.x!1!1")
+				sc.do("inv!u3!3!r1.s1:1.x!1!3")
+			}
+			ob := sc.do("noop")
+			ob = sc.do("flow!1")
+			var stuck []string
+			for _, p := range lastPending(ob) {
+				if p == "u2" || p == "u3" || (p == "serve" && end == "B") {
+					stuck = append(stuck, p) // ServeOne must return once its transport has failed
+				}
+			}
+			if len(stuck) > 0 {
+				o.Oracle("C05:fault-contained", sc.request(), fmt.Sprintf("soft=%v transport of end %s failed at the hand-off of a new stream: still pending at quiescence: %v; blocked: %s",
+					soft, end, stuck, strings.Join(append(sc.w.LastObs().ClientCensus, sc.w.LastObs().ServerCensus...), " | ")))
+			} else {
+				o.OracleOK("C05:fault-contained")
+			}
 			finish(o, sc)
 		}
 	}
